@@ -681,7 +681,7 @@ def all_probes():
     out.append((F_AHBERR, fails, "AHB2Wishbone: Wishbone slave answering ack & err; " + what))
     # -- fixed: down-converter write whose first sub-word is unstrobed, slave with aw/w.ready high while idle
     inst = mk_axldown(64, 32, 32, pol="fast", master="single")
-    inst.env.master.strbs = (0xf0, 0xf0, 0x0f, 0xc0)
+    inst.env.master.strbs = inst.env._pristine[0].strbs = (0xf0, 0xf0, 0x0f, 0xc0)
     inst._monitor = lambda i: BridgeMonitor(i, "axl", "axl", 8, 4, lambda a: a & ~7, lambda a: a & ~3, hang=60)
     fails, what = closed_loop_probe(inst, 11, 600)
     out.append((F_HANG, fails, "AXILiteDownConverter(64->32): writes with strb 0xf0 to a slave whose aw/w.ready are "
